@@ -50,9 +50,9 @@ class P(Play):
         if name == "main" and self.cfg.get("mixin"):
             return await self.construct_mixin()
         ctx = await super().construct(name, model, Hh, state0)
-        tgt = Target()
-        ctx.sm.bind_events_to(tgt)
-        ctx.extra["bound"] = tgt
+        tgt, tgt2 = Target(), Target()
+        ctx.sm.bind_events_to(tgt, tgt2)  # several targets in one call
+        ctx.extra["bound"], ctx.extra["bound2"] = tgt, tgt2
         return ctx
 
     async def construct_mixin(self):
